@@ -143,14 +143,17 @@ pub fn calculate_crc<T: CrcBlock + Block>(blck: &mut T) -> CrcValue {
             blck.set_crc(crc_bak); // restore orginal crc
             CrcValue::Crc32(output_crc)
         }
-        _ => {
-            panic!("Unknown crc type");
-        }
+        // unknown crc type: nothing can be computed, keep the value as it is
+        _ => blck.crc_value().clone(),
     }
 }
 pub fn check_crc<T: CrcBlock + Block>(blck: &mut T) -> bool {
     if !blck.has_crc() {
         return !blck.has_crc();
+    }
+    if let CrcValue::Unknown(_) = blck.crc_value() {
+        // a checksum of unknown type cannot be verified
+        return false;
     }
     calculate_crc(blck).bytes() == blck.crc()
 }
